@@ -268,5 +268,251 @@ def extract():
     return gaps
 
 
+
+# ----------------------------------------------------------------------------------------------
+# generator
+# ----------------------------------------------------------------------------------------------
+
+COUNTERS = [0, 1, 2 ** 31, 2 ** 32 - 2, 2 ** 32 - 1]
+BOUNDARY_LENGTHS = [63, 64, 65, 127, 128, 129, 191, 192, 193, 255, 256, 257, 511, 512, 513]
+LONG_LENGTHS = [65536, 65535, 65537]
+ZERO_KEY = "00" * 32
+
+
+def _hex(rng, n: int) -> str:
+    return bytes(rng.getrandbits(8) for _ in range(n)).hex() if n else "-"
+
+
+def _key(rng) -> str:
+    r = rng.random()
+    if r < 0.08:
+        return ZERO_KEY
+    if r < 0.16:
+        return "ff" * 32
+    if r < 0.22:                      # a single non-zero byte (first / last / random position)
+        b = bytearray(32)
+        b[rng.choice([0, 31, rng.randrange(32)])] = rng.choice([1, 0x80, 0xFF])
+        return b.hex()
+    return _hex(rng, 32)
+
+
+def _nonzero_key(rng) -> str:
+    while True:
+        k = _key(rng)
+        if k != ZERO_KEY:
+            return k
+
+
+def _nonce(rng) -> str:
+    r = rng.random()
+    if r < 0.1:
+        return "00" * 12
+    if r < 0.2:
+        return "ff" * 12
+    return _hex(rng, 12)
+
+
+def _counter(rng) -> int:
+    r = rng.random()
+    if r < 0.6:
+        return rng.choice(COUNTERS)
+    if r < 0.8:                        # a few blocks before the wrap
+        return 2 ** 32 - rng.randint(1, 6)
+    return rng.getrandbits(32)
+
+
+def _payload(rng, n: int) -> str:
+    """short inputs literally (random, all-zero or all-FF), longer ones by the shared filler"""
+    if n == 0:
+        return "-"
+    if n <= 96 and rng.random() < 0.7:
+        r = rng.random()
+        if r < 0.1:
+            return "00" * n
+        if r < 0.2:
+            return "ff" * n
+        return _hex(rng, n)
+    return f"gen:{n}:{rng.getrandbits(48)}"
+
+
+def _id(rng) -> str:
+    r = rng.random()
+    if r < 0.1:
+        return "00" * 32
+    if r < 0.2:
+        return "ff" * 32
+    if r < 0.4:                        # counters derived from the id that sit next to the wrap
+        c = rng.choice([2 ** 32 - 1, 2 ** 32 - 2, 2 ** 31, 1])
+        return c.to_bytes(4, "little").hex() + _hex(rng, 28)
+    return _hex(rng, 32)
+
+
+def gen_case(rng, idx: int, tier: str) -> Case:
+    shape = rng.choices(["short", "boundary", "twice", "into", "block", "qr", "mgr", "mgr-zero", "ctr"],
+                        weights=[30, 22, 10, 6, 8, 4, 12, 4, 4])[0]
+    ops = []
+    if shape == "short":
+        key, nonce = _key(rng), _nonce(rng)
+        # sweep every length 0..200 over the run (idx-driven) plus random ones
+        for n in [idx % 201, rng.randint(0, 200), rng.randint(0, 200)]:
+            ops.append(f"apply {key} {nonce} {_counter(rng)} {_payload(rng, n)}")
+    elif shape == "boundary":
+        key, nonce = _key(rng), _nonce(rng)
+        for _ in range(3):
+            n = rng.choice(BOUNDARY_LENGTHS)
+            ctr = rng.choice([2 ** 32 - 1, 2 ** 32 - 2, 2 ** 32 - (n + 63) // 64, _counter(rng)]) % 2 ** 32
+            ops.append(f"apply {key} {nonce} {ctr} {_payload(rng, n)}")
+    elif shape == "twice":
+        key, nonce = _key(rng), _nonce(rng)
+        for _ in range(2):
+            n = rng.choice(BOUNDARY_LENGTHS + [rng.randint(0, 200)])
+            ops.append(f"twice {key} {nonce} {_counter(rng)} {_payload(rng, n)}")
+    elif shape == "into":
+        key, nonce = _key(rng), _nonce(rng)
+        for _ in range(2):
+            n = rng.choice([0, 1, 63, 64, 65, 130, rng.randint(0, 200)])
+            old = rng.choice([0, 1, max(0, n - 1), n, n + 1, n + 70])
+            ops.append(f"applyinto {key} {nonce} {_counter(rng)} {_payload(rng, n)} {_payload(rng, old)}")
+    elif shape == "block":
+        key, nonce = _key(rng), _nonce(rng)
+        for _ in range(3):
+            ops.append(f"block {key} {nonce} {_counter(rng)}")
+    elif shape == "qr":
+        for _ in range(4):
+            ws = [rng.choice([0, 0xFFFFFFFF, 0x80000000, 1, rng.getrandbits(32), rng.getrandbits(32)]) for _ in range(4)]
+            ops.append("qr " + " ".join(f"{w:08x}" for w in ws))
+    elif shape == "mgr":
+        key, cid = _nonzero_key(rng), _id(rng)
+        n = rng.choice([0, 1, 63, 64, 65, 128, rng.randint(0, 200), rng.randint(0, 200)])
+        ops.append(f"mgr_rt {key} {cid} {_payload(rng, n)}")
+        ops.append(f"mgr_enc {key} {cid} {_payload(rng, n)}")
+        ops.append(f"mgr_dec {key} {cid} {_nonce(rng)} {_payload(rng, n)}")
+        ops.append(f"mgr_obj {key} {cid} {_payload(rng, n)}")
+        ops.append(f"ctr {cid}")
+    elif shape == "mgr-zero":
+        cid = _id(rng)
+        n = rng.choice([0, 1, 16, 64, 65, rng.randint(1, 96)])
+        pt = _hex(rng, n)
+        ops.append(f"mgr_obj {ZERO_KEY} {cid} {pt}")
+        ops.append(f"mgr_rt {ZERO_KEY} {cid} {pt}")
+        ops.append(f"mgr_enc {ZERO_KEY} {cid} {pt}")
+        ops.append(f"mgr_dec {ZERO_KEY} {cid} {_nonce(rng)} {pt}")
+    else:
+        for _ in range(4):
+            ops.append(f"ctr {_id(rng)}")
+    return Case(ops=ops, tag=shape)
+
+
+def _mass_failure(ctx, cases) -> bool:
+    """Pre-flight on a few cases: when the implementation crashes (sanitizer) or hangs (alarm) on a
+    large share of them, running thousands more only multiplies process restarts. The check then
+    keeps a small sample — still enough for a replay per violated clause."""
+    probe = [Case(ops=list(c.ops), tag=c.tag, cid=f"probe{i}") for i, c in enumerate(cases[:10])]
+    try:
+        res = run_harness(harness(), probe, ctx.work, timeout=40.0, per_case_timeout=15.0)
+    except Exception:
+        return False
+    bad = sum(1 for c in probe if res.get(c.cid, ([], None))[1])
+    if bad >= 3:
+        ctx.notes.append(f"pre-flight: the implementation crashed or hung on {bad}/{len(probe)} probe cases; "
+                         "generation reduced to a sample (each crash costs a process restart)")
+        return True
+    return False
+
+
+def generate(ctx, budget):
+    rng = ctx.rng
+    cases = [gen_case(rng, i, ctx.tier) for i in range(budget)]
+    if _mass_failure(ctx, cases):
+        return cases[:48]
+    # 64 KiB inputs (1024 blocks; with the counters below the stream crosses 2^32)
+    n_long = 3 if ctx.tier == "quick" else 36
+    for i in range(n_long):
+        n = LONG_LENGTHS[i % len(LONG_LENGTHS)]
+        ctr = [2 ** 32 - 2, 2 ** 32 - 1, 0, 2 ** 32 - 1000, 2 ** 31][i % 5] if i < 5 else _counter(rng)
+        key, nonce = _key(rng), _nonce(rng)
+        op = "apply" if i % 3 != 2 else "twice"
+        cases.append(Case(ops=[f"{op} {key} {nonce} {ctr} gen:{n}:{rng.getrandbits(48)}"], tag="long"))
+    if ctx.tier == "thorough":
+        key, cid = _nonzero_key(rng), _id(rng)
+        cases.append(Case(ops=[f"mgr_rt {key} {cid} gen:65536:{rng.getrandbits(48)}",
+                               f"mgr_rt {key} {cid} gen:1048576:{rng.getrandbits(48)}"], tag="long"))
+    return cases
+
+
+def nontrivial(r: CaseResult) -> bool:
+    """a case counts if at least one of its ops pushed ≥ 1 byte through the cipher (or ran a block /
+    quarter round) and the implementation produced a well-formed answer for it"""
+    for op, out in zip(r.case.ops, r.impl):
+        t = op.split(" ")
+        if t[0] in ("qr", "block", "ctr"):
+            return True
+        if t[0] in ("apply", "twice", "applyinto") and t[4] != "-" and not t[4].startswith("gen:0:") and out not in ("-", ""):
+            return True
+        if t[0].startswith("mgr_") and t[-1] != "-":
+            return True
+    return False
+
+
+def post(ctx, results):
+    """evidence note on the excluded point (all-zero key): how often the static round trip
+    did not return the plaintext because each temporary manager drew its own random key"""
+    total = failed = 0
+    for r in results:
+        for op, out in zip(r.case.ops, r.impl):
+            t = op.split(" ")
+            if t[0] == "mgr_rt" and t[1] == ZERO_KEY and t[3] != "-" and not t[3].startswith("gen:"):
+                o = out.split(" ")
+                if len(o) == 3:
+                    total += 1
+                    failed += (o[2] != t[3])
+    ctx.coverage["excluded_point_zero_key"] = {"static_roundtrips_nonempty": total, "did_not_return_plaintext": failed}
+    ctx.notes.append(f"excluded point key = 0 (not part of C09's observable): {failed}/{total} static "
+                     "encrypt_with_key/decrypt_with_key round trips of a non-empty plaintext did not return it "
+                     "(each temporary CryptoManager swaps in its own random key; theorem C09.manager_zero_key)")
+
+
+VECTOR_THEOREMS = ["EphVerif.Spec.ChaCha.Vectors." + n for n in (
+    "quarterRound_2_1_1", "qrAt_2_2_1", "initState_2_3_2", "rounds_2_3_2", "blockState_2_3_2", "block_2_3_2",
+    "sunscreen_bytes", "keystream1_2_4_2", "keystream2_2_4_2", "encrypt_2_4_2", "decrypt_2_4_2")]
+
+
+def spec() -> Spec:
+    return Spec(
+        pid=PID,
+        proof_modules=["EphVerif.Proofs.C09"],
+        driver="drv_c09",
+        harness=harness,
+        generate=generate,
+        extract=extract,
+        nontrivial=nontrivial,
+        budget={"quick": 1500, "thorough": 40000},
+        search_budget={"quick": 3000, "thorough": 40000},
+        extra_theorems=VECTOR_THEOREMS,
+        divergence_is_violation=True,
+        post=post,
+        per_case_timeout=30.0,
+        rule="cases of 1-5 ops on the real ChaCha20.cpp / CryptoManager.cpp: apply at every length 0..200 (swept), at "
+             "63/64/65 … 511/512/513 and at 64 KiB ± 1, counters {0, 1, 2^31, 2^32-2, 2^32-1, 2^32-k, random}, keys/nonces "
+             "random, all-zero, all-FF, single non-zero byte; apply twice; apply into a pre-filled vector; single blocks; "
+             "quarter rounds; CryptoManager static and object round trips (random nonce/key taken from the implementation "
+             "as validated hints). distinct = sha256 of the op list; non-trivial = at least one op pushed >= 1 byte through "
+             "the cipher (or evaluated a block / quarter round / derive_counter)",
+        trusted_base=["RFC 8439 transcription in Spec/ChaCha20.lean (checked against the RFC's own test vectors 2.1.1, 2.2.1, "
+                      "2.3.2, 2.4.2 by kernel evaluation)",
+                      "regex extractor of props/C09.py for the generated tables (a wrong transcription shows up as a "
+                      "model/implementation divergence)",
+                      "FNV-1a/head/tail digest for outputs above 256 bytes (both sides)"],
+        assumptions=["Key/Nonce are std::array<uint8_t,32/12>: theorems about RFC equality carry key.length = 32, nonce.length = 12",
+                     "CryptoManager: std::random_device / mt19937_64 outputs are arbitrary parameters (theorems quantify over them)",
+                     "CryptoManager round trip excludes the all-zero key (random key swapped in); the excluded point is "
+                     "characterised by theorem manager_zero_key and replayed as a note"],
+    )
+
+
+def run(tier, seed, replay=None):
+    return standard_check(spec(), tier, seed, replay)
+
+
 if __name__ == "__main__":
     print(extract())
